@@ -1,15 +1,19 @@
 #!/bin/bash
-# Runs the owning quick check against every seeded change: apply to /repo, run, revert.
-# usage: eval_seeded.sh [id...] ; prints CAUGHT / MISSED per id. Never leaves /repo modified.
+# Runs the owning quick check against seeded changes. Each patch is applied to a scratch worktree
+# of /repo HEAD under /tmp and the check is pointed at it with VERIF_REPO (temporary -modfile), so
+# /repo itself is never modified and other checks may run at the same time. (Equivalent to
+# `git -C /repo apply <patch>; ./bin/vcheck <id>; git -C /repo checkout -- .`.)
+# usage: eval_seeded.sh [id...] ; id = directory name under /verif/seeded (C02, C02b, ...)
 ids="$@"; [ -z "$ids" ] && ids=$(ls /verif/seeded)
 for id in $ids; do
-  d=/verif/seeded/$id
-  git -C /repo diff --quiet || { echo "/repo is dirty, refusing"; exit 2; }
-  git -C /repo apply $d/patch.diff || { echo "$id: PATCH DOES NOT APPLY"; continue; }
-  prop=${id:0:3}; out=$(cd /verif && VERIF_SEED=${VERIF_SEED:-1} ./bin/vcheck $prop --tier quick 2>&1); rc=$?
-  git -C /repo checkout -- .
+  d=/verif/seeded/$id; prop=${id:0:3}; T=$(mktemp -d /tmp/evalseed-XXXXXX); rmdir $T
+  git -C /repo worktree add --detach -q $T HEAD || { echo "$id: worktree failed"; continue; }
+  if ! git -C $T apply $d/patch.diff; then echo "$id: PATCH DOES NOT APPLY"; git -C /repo worktree remove --force $T; continue; fi
+  E=$(mktemp -d /tmp/evalseed-ev-XXXXXX)
+  out=$(cd /verif && VERIF_SEED=${VERIF_SEED:-1} VERIF_REPO=$T VERIF_EVIDENCE_DIR=$E ./bin/vcheck $prop --tier quick 2>&1); rc=$?
+  git -C /repo worktree remove --force $T; rm -rf $T $E
   if echo "$out" | grep -q "VIOLATION property=$prop" && [ $rc -eq 1 ]; then
-    echo "$id: CAUGHT  $(echo "$out" | grep -m1 '^violation class' | cut -c1-160)"
+    echo "$id: CAUGHT  $(echo "$out" | grep -m1 '^violation class' | cut -c1-170)"
   else
     echo "$id: MISSED (exit $rc) $(echo "$out" | grep -m1 'HARNESS\|harness' | cut -c1-120)"
   fi
